@@ -50,7 +50,9 @@ leave the main route alone and break the property on an alternative route the li
 offers (a second entry point, a lower-level API, an in-memory transport, a rarely passed option,
 the second use of an object), the sixteenth was given, per property, the files of its anchor set
 that earlier waves had hardly touched and told to make the change there, in code that looks
-finished and boring.
+finished and boring, the seventeenth that the breakage must be invisible to a test that compares
+the values returned by a successful fault-free run and has to show in another aspect the property
+talks about.
 All %d changes were
 confirmed by `bin/confirm-seeded` (patch applies to HEAD; `go build ./...`; `go test` of every
 package except the root passes; the demonstration fails with the change and passes without it) and
@@ -123,6 +125,12 @@ than "does not crash"; writes to the shared circuit value were invisible unless 
 result; a streaming session that broke was put aside before its transcript was scanned; accept
 queues were FIFO; the choice buffer of the pure helpers was never touched again by its owner.
 Each became a clause or a fault kind that is stated for the unchanged tree and holds there.
+The seventeenth wave asked for exactly that kind of change (nothing a value comparison sees):
+nine caught at once, three after a workload extension, two not caught because what they change
+(recycling of wire ids, the caller's input vector) is outside what the properties state. Five of
+the fourteen agents re-invented a slip of an earlier wave (`IOStats.Add` writing its receiver,
+the early `Release` in sha2pc twice, one bulk `rand.Read`, a weakened KOS comparison) - the space
+of small plausible breakages of these properties is being revisited rather than extended.
 
 ''' % (ordn[len(waves) - 1].capitalize(), len(rows), len(own), len(missed), len(rows), per_wave, ', '.join(m['name'] for m in notcaught))
 out += '''| change | property | what was changed | needs | clause that fires | missed at first? |
